@@ -206,6 +206,7 @@ func TestC13DeadPeer(t *testing.T) {
 	rapid.Check(t, func(rt *rapid.T) {
 		sc := genC13Dead(rt)
 		rec.Current("scenario", sc)
+		vnet.FreezeHook = mutexDeadlockHook(rec, "scenario", sc, "dead peer cannot be detected")
 		r := runC13Dead(t, sc)
 		rec.Case(r.nontrivial, scKey(sc), r.labels...)
 		if r.nontrivial && rec.WantSample() {
